@@ -48,6 +48,7 @@ def plan(tier, seed):
                     shards.append(("k3", i, j))
     shards += [("long", n) for n in (8, 12, 20, 40, 300)]
     shards += [("k3ties", t, l1) for t in (0, 2) for l1 in range(5)]
+    shards += [("foreign", i) for i in range(len(FOREIGN_S))]
     shards += [("headers", k) for k in range(8)]
     shards += [("big", bi, i) for bi in range(len(BASES)) for i in range(-1, len(PHR))]
     return dict(
@@ -56,6 +57,10 @@ def plan(tier, seed):
         budget_s=1200 if tier == "thorough" else 300,
     )
 
+
+# special-phrase lines that are NOT star power (index other than the bare 2): they never form a phrase (C07), so
+# membership is decided by the S 2 lines alone
+FOREIGN_S = ("S 0", "S 1", "S 3", "S 64", "S 22", "S 02", "S 20", "S 12")
 
 SUSTAIN = 0  # module switch: 0, or a length written on every note line (notes held across phrase ends)
 
@@ -158,6 +163,25 @@ def run_shard(shard, ctx):
             for q in PHR[:: 4]:
                 if p[0] <= q[0]:
                     check_list(ctx, (p, q), ("before",), 5, base)
+        return
+    if kind == "foreign":
+        word = FOREIGN_S[shard[1]]
+        for phr in [()] + [(q,) for q in PHR[::3]] + [((1, 2), (4, 1)), ((0, 0), (3, 3))]:
+            ctx.node()
+            for fl in (((0, 9),), ((2, 3),), ((0, 2), (5, 4)), ((3, 0), (3, 4))):
+                F = ["%d = %s %d" % (t, word, ln) for t, ln in fl]
+                for k in range(1, 1 << 7):
+                    notes = [i for i in range(7) if k >> i & 1]
+                    expected = [[n, next((i for i, (t, ln) in enumerate(phr) if t <= n < t + ln), None)] for n in notes]
+                    S = ["%d = S 2 %d" % q for q in phr]
+                    N = ["%d = N 0 0" % t for t in notes]
+                    for body in (F + S + N, S + F + N, sorted(F + S + N, key=lambda ln: int(ln.split()[0]))):
+                        text = mk(tracks={"ExpertSingle": body})
+                        got = e1.run_probe(probe, text)
+                        ctx.case(text, nontrivial=True, sample=lambda: dict(body=body, expected=expected))
+                        ctx.evaluations += len(notes)
+                        if got != expected:
+                            e1.report(ctx, "membership", text, PROBE_SRC, [expected], got, "phrases %r, lines %r that are not star power, note ticks %r" % (list(phr), F, notes))
         return
     global SUSTAIN
     if kind == "k1":
